@@ -112,8 +112,9 @@ def emit(p, fname, naming=0):
                    "chan": ("make(Queue, 8)", "%s <- %s")}[p["mty"]]
         pre = "\tn := len(%s)\n" % x if p["where"] == "before" else ""
         use = "len(%s)" % x if p["where"] == "in" else "n"
-        return sig + "\t%s := %s\n\t%s := 0\n%s\tfor %s := 0; %s < clamp(%s); %s++ {\n\t\t%s\n\t\t%s += %s\n\t}\n\treturn %s + %s\n}\n" % (
-            x, mk, s_, pre, i, i, a, i, put % (x, i), s_, use, s_, b)
+        asg = "+=" if p.get("use", "sum") == "sum" else "="
+        return sig + "\t%s := %s\n\t%s := 0\n%s\tfor %s := 0; %s < clamp(%s); %s++ {\n\t\t%s\n\t\t%s %s %s\n\t}\n\treturn %s + %s\n}\n" % (
+            x, mk, s_, pre, i, i, a, i, put % (x, i), s_, asg, use, s_, b)
     if t == "bigloop":
         s_, i = N["s"], N["i"]
         return sig + "\t%s := 0\n\tfor %s := %d; %s < %s; %s += %d {\n\t\t%s++\n\t}\n\treturn %s + %s\n}\n" % (
